@@ -8,7 +8,7 @@ PROPS=${@:-C01 C02 C03 C04 C05 C06 C07 C08 C09 C10 C11 C12 C13 C14 C15 C16 C17 C
 ROOT=${VERIF_ROOT:-/verif}
 export GOFLAGS=-mod=mod GOPROXY=off GOSUMDB=off GOTOOLCHAIN=local
 W=/tmp/refwt-$$
-git -C /repo worktree add -q --detach $W HEAD || exit 2
+git -C /repo worktree add -q --detach $W ${BASE:-HEAD} || exit 2
 trap 'git -C /repo worktree remove --force $W >/dev/null 2>&1; rm -rf $W' EXIT
 ( cd $W && git apply $R/patch.diff ) || { echo "PATCH DOES NOT APPLY"; exit 2; }
 ( cd $W && go build ./... && go test -vet=off -count=1 ./... 2>&1 | grep -v '^ok\|no test files' | head -5 )
